@@ -59,9 +59,23 @@ pub fn exec_history(
     cfg_seed: u64,
     swap: bool,
     skew: u64,
+    per_run: impl FnMut(&World, &RunRec, &Outcome, &Tree) -> Result<(), (String, String, String)>,
+) -> Result<HistRun, (String, String, String)> {
+    exec_history_named(h, cfg_seed, swap, skew, ROOT_A, new_world(), per_run)
+}
+
+/// Like `exec_history`, but the first root is NAMED `a_arg` on the command line (e.g. a
+/// symlink to ROOT_A) and the history starts from `w0`.
+pub fn exec_history_named(
+    h: &History,
+    cfg_seed: u64,
+    swap: bool,
+    skew: u64,
+    a_arg: &str,
+    w0: World,
     mut per_run: impl FnMut(&World, &RunRec, &Outcome, &Tree) -> Result<(), (String, String, String)>,
 ) -> Result<HistRun, (String, String, String)> {
-    let mut w = new_world();
+    let mut w = w0;
     w.clock_ns += skew;
     let mut runs = Vec::new();
     let mut steps = 0u64;
@@ -95,7 +109,7 @@ pub fn exec_history(
                     });
                     faulted = true;
                 }
-                let (ra, rb) = if swap { (ROOT_B, ROOT_A) } else { (ROOT_A, ROOT_B) };
+                let (ra, rb) = if swap { (ROOT_B, a_arg) } else { (a_arg, ROOT_B) };
                 let out = run_bisync(w, cfg, ra, rb, &[], h.hostname_env);
                 steps += out.stats.steps;
                 let kind = classify(&out);
